@@ -92,3 +92,10 @@ CASES += [
         ("quantarhei/core/parallel.py", "        raise Exception(\"This code has to be run from a declared parallel_region\")\n        \n    if config.parallel_level==1:\n        \n        config.inparallel_entered = True\n        \n        rng = _calculate_ranges(config, start, stop)",
          "        raise Exception(\"This code has to be run from a declared parallel_region\")\n        \n    distributing = (config.parallel_level == 1)\n    if stop <= start and not distributing:\n        if config.parallel_region == 1:\n            config.range = [start, stop]\n        return range(start, stop)\n\n    if config.parallel_level==1:\n        \n        config.inparallel_entered = True\n        \n        rng = _calculate_ranges(config, start, stop)", 1)]},
 ]
+
+CASES += [
+    {"name": "array helper counts the elements instead of the rows (seeded change of round 7)", "kind": "mutant", "rule": "C20-D", "edits": [
+        ("quantarhei/core/parallel.py", "    ln = array.shape[0]", "    ln = array.size", 1)]},
+    {"name": "array helper takes the number of rows with len()", "kind": "twin", "edits": [
+        ("quantarhei/core/parallel.py", "    ln = array.shape[0]", "    ln = len(array)", 1)]},
+]
